@@ -390,3 +390,63 @@ def _pre_rgb(r: int, g: int, b: int) -> bool:
 def c06_rgb(r: int, g: int, b: int) -> bool:
     c = _color_parse("rgb(" + str(r) + "," + str(g) + "," + str(b) + ")")
     return c.type == ColorType.TRUECOLOR and c.triplet == ColorTriplet(r, g, b) and c.number is None
+
+
+# --- string form of DERIVED styles, with and without the source's string form cached first (P, symx) --------------------
+_D_ATTR = [None, ("bold", True), ("bold", False), ("italic", True)]
+_D_COL = [None, "red", "#010203"]
+_D_LINK = [None, "http://x/A?b=1"]
+
+
+def _d_style(e, p, with_bg=True):
+    kw = {}
+    a = _D_ATTR[int(e.mk(p + "_attr", 0, len(_D_ATTR) - 1))]
+    if a:
+        kw[a[0]] = a[1]
+    col, bg = _D_COL[int(e.mk(p + "_fg", 0, 2))], (_D_COL[int(e.mk(p + "_bg", 0, 2))] if with_bg else None)
+    if col:
+        kw["color"] = col
+    if bg:
+        kw["bgcolor"] = bg
+    link = _D_LINK[int(e.mk(p + "_link", 0, 1))]
+    if link:
+        kw["link"] = link
+    return Style(**kw)
+
+
+@symx("C06-roundtrip-derived-styles", timeout=900, kind="P", functions=F_PARSE + ["rich/style.py:Style.update_link", "rich/style.py:Style.without_color",
+                                                                                 "rich/style.py:Style.copy", "rich/style.py:Style.__add__"],
+      bounds="style s and t (each: attribute from {none, bold on/off, italic on} x colour (and for s bgcolor) from {unset, named, "
+             "#rrggbb} x link on/off); optionally str(s) and str(t) are taken first (which caches the definition on the objects); then d is derived "
+             "by one of {s.update_link(url), s.update_link(None), s.without_color, s.copy(), s + t, Style.chain(s, t), "
+             "Style.combine([s, t])}: parse(str(d)) == d, parse(normalize(str(d))) == d, equal hashes, and str(s) is unchanged "
+             "(solver-enumerated, native)")
+def c06_rt_derived(e):
+    how = int(e.mk("derivation", 0, 6))
+    s = _d_style(e, "s")
+    t = _d_style(e, "t", with_bg=False) if how >= 4 else Style()
+    warm = bool(e.mkbool("str_taken_first"))
+    if warm:
+        s0, _t0 = str(s), str(t)
+    if how == 0:
+        d = s.update_link("http://y/Other")
+    elif how == 1:
+        d = s.update_link(None)
+    elif how == 2:
+        d = s.without_color
+    elif how == 3:
+        d = s.copy()
+    elif how == 4:
+        d = s + t
+    elif how == 5:
+        d = Style.chain(s, t)
+    else:
+        d = Style.combine([s, t])
+    text = str(d)
+    p1 = Style.parse(text)
+    p2 = Style.parse(Style.normalize(text))
+    if not (p1 == d and p2 == d and hash(p1) == hash(d) and hash(p2) == hash(d)):
+        return False
+    if warm and str(s) != s0:
+        return False
+    return Style.parse(str(s)) == s
